@@ -12,7 +12,10 @@ Read from the working tree on every run (AST node types are whitelisted, never s
   pyroll/core/roll/hookimpls.py
       * `contour_points`, `min_radius`, `max_radius` (pyexpr), `surface_z` (column), `surface_y` (element formula with the
         broadcast axes), `surface_x` (guarded padded angle, `linspace` list, mirrored concatenation, outer formula)
-  pyroll/core/roll/roll.py            `surface_interpolation`: axes and transposition handed to `interpn` (shape check)
+  pyroll/core/roll/roll.py            `surface_interpolation`: axes and transposition handed to `interpn` (shape check);
+                                      what the object keeps between two calls (`extract_roll_state`: private attributes of
+                                      `__init__`, what `reevaluate_cache` empties and when, pure / remembering methods,
+                                      hook functions reading them, nothing at module level) -> `RollTables`
   pyroll/core/grooves/spline.py       end-ordinate validation, boundary stripping (shape check), centring term,
                                       half width / width / usable width / depth terms, `interp1d` arguments, and what
                                       happens to the identity of the array behind the local name `contour_points`
@@ -443,6 +446,185 @@ def check_interpolation(tree):
 
 
 # ----------------------------------------------------------------------------------------------------------------
+# what a Roll object remembers between two calls (private instance attributes outside the hook cache, module-level state)
+# ----------------------------------------------------------------------------------------------------------------
+def _is_docstring(st):
+    return isinstance(st, ast.Expr) and isinstance(st.value, ast.Constant) and isinstance(st.value.value, str)
+
+
+def _private_self_names(node):
+    """every `self._x` mentioned anywhere below `node` (attribute reads, writes, method calls), dunder names excluded"""
+    out = []
+    for n in ast.walk(node):
+        a = _self_attr(n) if isinstance(n, ast.Attribute) else None
+        if a is not None and a.startswith("_") and not (a.startswith("__") and a.endswith("__")):
+            out.append(a)
+    return out
+
+
+def _self_none_assign(st):
+    """`self._x = None` -> "_x" """
+    if isinstance(st, ast.Assign) and len(st.targets) == 1 and isinstance(st.value, ast.Constant) and st.value.value is None:
+        a = _self_attr(st.targets[0])
+        if a is not None and a.startswith("_"):
+            return a
+    return None
+
+
+def extract_roll_state(rtree, htree):
+    """-> dict(private, resets, reset_after_hooks, memo_fields, methods, hook_reads), list of gaps.
+
+    roll.py: the module holds nothing but imports, `__all__` and the class; `Roll.__init__` creates private attributes only as
+    `self._x = None`; `Roll.reevaluate_cache` is `super().reevaluate_cache()` and `self._x = None` statements (their order is
+    recorded); every other method / property either mentions no `self._…` at all (pure) or has the memo shape
+    `if self._f: return self._f` / `self._f = <expr without self._…>` / `return self._f`; decorators other than `property`,
+    `global` / `nonlocal`, assignments to other attributes of `self` are outside the subset.
+    hookimpls.py: the module holds nothing but imports and functions registered on hooks of `Roll`; none of them mentions a
+    private attribute; which of them read a method / property of the class is recorded."""
+    gaps = []
+    for st in rtree.body:
+        ok = isinstance(st, (ast.Import, ast.ImportFrom)) or _is_docstring(st) \
+            or (isinstance(st, ast.ClassDef) and st.name == "Roll") \
+            or (isinstance(st, ast.Assign) and len(st.targets) == 1 and isinstance(st.targets[0], ast.Name)
+                and st.targets[0].id == "__all__")
+        if not ok:
+            gaps.append(f"{RR}: module-level statement outside the subset (state outside the object?): "
+                        f"`{ast.unparse(st)[:60]}`")
+    cls = _cls(rtree, "Roll")
+    methods_ast = {}
+    for st in cls.body:
+        if isinstance(st, ast.FunctionDef):
+            for d in st.decorator_list:
+                if not (isinstance(d, ast.Name) and d.id == "property"):
+                    gaps.append(f"{RR}: Roll.{st.name}: decorator `{ast.unparse(d)[:40]}`")
+            methods_ast[st.name] = st
+        elif _is_docstring(st):
+            continue
+        elif isinstance(st, (ast.Assign, ast.AnnAssign)) and isinstance(st.value, ast.Call) \
+                and isinstance(st.value.func, ast.Subscript) and isinstance(st.value.func.value, ast.Name) \
+                and st.value.func.value.id == "Hook" and not st.value.args and not st.value.keywords:
+            continue
+        else:
+            gaps.append(f"{RR}: class-level statement outside the subset: `{ast.unparse(st)[:60]}`")
+    for fn in methods_ast.values():
+        for n in ast.walk(fn):
+            if isinstance(n, (ast.Global, ast.Nonlocal)):
+                gaps.append(f"{RR}: Roll.{fn.name}: `{ast.unparse(n)}`")
+    # __init__
+    private = []
+    init = methods_ast.pop("__init__", None)
+    if init is None:
+        gaps.append(f"{RR}: Roll.__init__ not found")
+    else:
+        for st in _body(init):
+            a = _self_none_assign(st)
+            if a is not None:
+                private.append(a)
+            elif _same(st, "self.__dict__.update(kwargs)") or _same(st, "super().__init__()") or _same(st, "self.groove = groove"):
+                continue
+            else:
+                gaps.append(f"{RR}: Roll.__init__: statement outside the subset: `{ast.unparse(st)[:60]}`")
+    # reevaluate_cache
+    resets, after = [], True
+    rc = methods_ast.pop("reevaluate_cache", None)
+    if rc is None:
+        gaps.append(f"{RR}: Roll.reevaluate_cache not found")
+    else:
+        body = _body(rc)
+        sup = [i for i, st in enumerate(body) if _same(st, "super().reevaluate_cache()")]
+        if len(sup) != 1:
+            gaps.append(f"{RR}: Roll.reevaluate_cache: `super().reevaluate_cache()` must occur exactly once")
+        pos = []
+        for i, st in enumerate(body):
+            a = _self_none_assign(st)
+            if a is not None:
+                resets.append(a)
+                pos.append(i)
+            elif i not in sup:
+                gaps.append(f"{RR}: Roll.reevaluate_cache: statement outside the subset: `{ast.unparse(st)[:60]}`")
+        if sup and pos:
+            if all(i > sup[0] for i in pos):
+                after = True
+            elif all(i < sup[0] for i in pos):
+                after = False
+            else:
+                gaps.append(f"{RR}: Roll.reevaluate_cache: private attributes emptied both before and after the hook values "
+                            f"are re-evaluated")
+    # the other methods / properties
+    methods, memo_fields = [], {}
+    for name, fn in methods_ast.items():
+        if name.startswith("__") and name.endswith("__"):
+            gaps.append(f"{RR}: Roll.{name}: special method outside the subset")
+            continue
+        body = _body(fn)
+        priv = _private_self_names(fn)
+        writes = [sub for n in ast.walk(fn) if isinstance(n, (ast.Assign, ast.AugAssign, ast.AnnAssign))
+                  for tgt in (n.targets if isinstance(n, ast.Assign) else [n.target])
+                  for sub in ast.walk(tgt) if isinstance(sub, ast.Attribute) and _self_attr(sub) is not None]
+        if not priv:
+            if writes:
+                gaps.append(f"{RR}: Roll.{name} assigns to an attribute of the roll")
+            else:
+                methods.append((name, ("pure",)))
+            continue
+        f = None
+        if len(body) == 3 and isinstance(body[0], ast.If) and not body[0].orelse and len(body[0].body) == 1 \
+                and isinstance(body[0].body[0], ast.Return) and isinstance(body[1], ast.Assign) and len(body[1].targets) == 1 \
+                and isinstance(body[2], ast.Return):
+            f = _self_attr(body[1].targets[0])
+            same = f is not None and f.startswith("_") and _self_attr(body[0].test) == f \
+                and _self_attr(body[0].body[0].value) == f and _self_attr(body[2].value) == f \
+                and not _private_self_names(body[1].value)
+            if not same:
+                f = None
+        if f is None:
+            gaps.append(f"{RR}: Roll.{name} uses private attributes {sorted(set(priv))} outside the memo shape")
+            continue
+        reads = sorted({_self_attr(n) for n in ast.walk(body[1].value) if isinstance(n, ast.Attribute)
+                        and _self_attr(n) is not None})
+        dep = "shape" if reads and set(reads) <= {"contour_points"} else "all"
+        if memo_fields.get(f, dep) != dep:
+            gaps.append(f"{RR}: private attribute {f} is filled from different data by different methods")
+            continue
+        memo_fields[f] = dep
+        methods.append((name, ("memo", f)))
+    # hook functions of the roll
+    names = {m for m, _ in methods}
+    hook_reads = []
+    for st in htree.body:
+        if isinstance(st, (ast.Import, ast.ImportFrom)) or _is_docstring(st):
+            continue
+        hook = None
+        if isinstance(st, ast.FunctionDef) and len(st.decorator_list) == 1:
+            info = pyexpr._decorator_info(st.decorator_list[0])
+            if info and info[0] == "Roll":
+                hook = info[1]
+        if hook is None:
+            gaps.append(f"{RH}: module-level statement outside the subset (state outside the object?): "
+                        f"`{ast.unparse(st)[:60]}`")
+            continue
+        if _private_self_names(st) or any(isinstance(n, (ast.Global, ast.Nonlocal)) for n in ast.walk(st)):
+            gaps.append(f"{RH}: hook function {st.name} uses private attributes of the roll / global names")
+        for n in ast.walk(st):
+            a = _self_attr(n) if isinstance(n, ast.Attribute) else None
+            if a in names and (hook, a) not in hook_reads:
+                hook_reads.append((hook, a))
+    return dict(private=private, resets=resets, reset_after_hooks=after, memo_fields=sorted(memo_fields.items()),
+                methods=methods, hook_reads=hook_reads), gaps
+
+
+def lean_roll_tables(rs):
+    def q(x):
+        return '"' + x + '"'
+    return ("{ privateFields := [" + ", ".join(q(f) for f in rs["private"]) + "],\n    resets := ["
+            + ", ".join(q(f) for f in rs["resets"]) + "],\n    resetAfterHooks := "
+            + ("true" if rs["reset_after_hooks"] else "false") + ",\n    memoFields := ["
+            + ", ".join(f"({q(f)}, .{d})" for f, d in rs["memo_fields"]) + "],\n    methods := ["
+            + ", ".join(f"({q(m)}, " + (".pure" if k[0] == "pure" else f".memo {q(k[1])}") + ")" for m, k in rs["methods"])
+            + "],\n    hookReads := [" + ", ".join(f"({q(h)}, {q(m)})" for h, m in rs["hook_reads"]) + "] }")
+
+
+# ----------------------------------------------------------------------------------------------------------------
 # spline groove
 # ----------------------------------------------------------------------------------------------------------------
 class _LTr:
@@ -735,9 +917,9 @@ def emit(ctx):
         info["gaps"].append(what)
         ctx.tie_breaks.append("translator: " + what)
 
-    L = ["import PyrollModel.GrooveRep",
+    L = ["import PyrollModel.GrooveRep", "import PyrollModel.RollObject",
          "/- GENERATED by driver/translate/c10_depth.py from the working tree on every run - do not edit. -/",
-         "namespace Gen.C10", "open GrooveRep", ""]
+         "namespace Gen.C10", "open GrooveRep RollObject", ""]
     le = pyexpr.lean_expr
 
     # --- generic elongation groove -------------------------------------------------------------------------
@@ -873,6 +1055,18 @@ def emit(ctx):
     except Gap as ex:
         gap(f"{RR}: {ex}")
         L.append("def interp_grid_transposed : Bool := false")
+    L.append("/-- what a `Roll` keeps on the object between two calls besides the hook cache: private attributes of `__init__`, "
+             "the ones `reevaluate_cache` empties (and whether after the hook values were re-evaluated), which methods remember "
+             "their result where, which hook functions read such a method -/")
+    try:
+        rs, rgaps = extract_roll_state(_parse(RR), rtree)
+    except Gap as ex:
+        rs, rgaps = dict(private=[], resets=[], reset_after_hooks=True, memo_fields=[], methods=[], hook_reads=[]), [f"{RR}: {ex}"]
+    for g in rgaps:
+        gap(g)
+    info["roll_state"] = rs
+    L.append("def roll_tables : RollTables :=\n  " + lean_roll_tables(rs))
+    L.append(f"def roll_state_ok : Bool := {'false' if rgaps else 'true'}")
     L.append("")
     L.append(f"/-! entry point ({SY}) -/")
     ep = [i for i in pyexpr.extract_hookimpls(os.path.join(_repo(), SY), module_name=SY) if i.hook == "entry_point"]
